@@ -92,6 +92,7 @@ def portfolio_is_mip(world, pid):
 
 def gen_world(rng, opts):
     env = specs.Env(rng, max_T=48)
+    env.periodic_p = max(getattr(env, "periodic_p", 0), 0.3)    # periodic assets keep state-like helpers (period tables, merged variables)
     env.allow_date_only_zone = True
     env.special_floats = rng.random() < 0.15
     env.coarse_p = max(getattr(env, "coarse_p", 0), 0.35)
@@ -245,7 +246,24 @@ def gen_scripts(rng, world, ctx):
                        "cast": _cast(rng, world, p2), "costs_only": rng.random() < 0.2})
         if rng.random() < 0.2:
             st.append({"op": "optimize", "obj": a, "solver": None})
+        if rng.random() < 0.12:
+            st.insert(0, _refused(a, "a.setup", g))
         return st
+
+    def _refused(obj, op, g):
+        """A call that EAO refuses (prices made for another grid / with a missing key / with a NaN) right before the valid calls on
+        the same object: whatever the refused call left behind must not show in them."""
+        others = [x for x in grids if x != g and specs.grid_info(world, x).T != specs.grid_info(world, g).T]
+        if ctx["faulty"] and (not others or rng.random() < 0.5):
+            bad = rng.choice(ctx["faulty"])
+        elif others:
+            bad = ctx["prices"][rng.choice(others)][1]
+        else:
+            bad = ctx["late_nan"][g]
+        st_ = {"op": op, "obj": obj, "grid": g, "prices": bad, "cast": False}
+        if op == "a.setup":
+            st_["costs_only"] = False
+        return st_
 
     def portf_user():
         P = rng.choice(tops)
@@ -315,6 +333,8 @@ def gen_scripts(rng, world, ctx):
         elif r < 0.6 and can_solve:
             st.append({"op": "io.optimize", "obj": P, "grid": g, "prices": ctx["prices"][g][0],
                        "split": rng.choice([None, None, "d"])})
+        if rng.random() < 0.12:
+            st.insert(0, _refused(P, "P.setup", g))
         return st
 
     def split_user():
